@@ -301,7 +301,8 @@ class FileCache:
         bytes: the raw file contents
         """
         full_file_path = os.path.join(self.root_path, file_name)
-        if not os.path.exists(full_file_path):
+        if not os.path.isfile(full_file_path):
+            # also a directory that holds nested keys: no value is stored under this name
             raise FileNotFoundError(file_name)
         claim = os.path.getsize(full_file_path)
         if claim > self.max_memory:
